@@ -30,7 +30,7 @@ Proof. exact like_one_tuple. Qed.
    fills them with Default) - the round trip over every accepted definition whose indices are
    pairwise distinct and below 256, which derive_accepts guarantees *)
 Theorem C05_decode_inverts : forall t v bs known rest,
-  nobits t = true -> wf_ty t = true -> wf t v = true -> enc_spec t v = EOk bs ->
+  wf_ty t = true -> wf t v = true -> enc_spec t v = EOk bs ->
   runo (dec t) known (bs ++ rest) = OOk (canon t v) rest.
 Proof. exact roundtrip. Qed.
 Theorem C05_accepted_enums_have_valid_indices : forall vs payloads, derive_accepts (DEnum vs) = true ->
